@@ -27,12 +27,18 @@ MANIFEST = {
                 "finite runs, exact delivery; join() as coded entered while the child still reads and writes; Process::wait/interrupt/join/"
                 "kill over a process table WITH pid reuse and a child-exit oracle: no waitpid ever hits a foreign child, every child is held by "
                 "exactly one holder and reaped exactly once, wait returns only a terminated listed child, returns null only when interrupted / "
-                "a child outside the list terminated / no child exists, a pending interrupt always wakes wait and is never lost.  "
+                "a child outside the list terminated / no child exists, a pending interrupt always wakes wait and is never lost; "
+                "Process::read(buffer, length, streams) with select as an oracle (any number of time-outs and EINTRs): EINVAL iff no requested "
+                "stream is open, ::read only on a readable descriptor (maxFd), delivery = first min(length, queued) bytes of a requested "
+                "readable stream, stdout first, 0 only at end-of-file, returns iff a requested stream is readable, every delivery is a step of "
+                "the unconstrained pipe system; descriptor tables after a failing k-th pipe() of open(), after start(), after daemonize() "
+                "(stdout/stderr to the log file, nothing else); failed start/join keep the object consistent.  "
                 "TESTED against the real kernel on every run: identical op lines on harness and model driver (exhaustive small scopes, "
                 "exactly sized heap buffers under ASan, watchdog), independent Python reference; exec, pipes, exit codes 0..255, payloads "
                 "around the pipe capacity, join/destructor/kill while the child still reads or writes, descriptor tables through /proc, "
                 "Process::wait/interrupt with real children and an interrupter thread, Process::exit, the 2-argument read, environ entries "
-                "without '=', failing pipe(); the getopt reference is cross-checked against Python's getopt.gnu_getopt on their common class.",
+                "without '=', failing pipe()/vfork()/waitpid(), the 3-argument read under an interposed select (time-outs, EINTR, both "
+                "descriptor orders), daemonize in a forked copy; the getopt reference is cross-checked against Python's getopt.gnu_getopt on their common class.",
         "note": "Trusted: Lean kernel + standard axioms; hand translation of Process.cpp (POSIX branch) into the model, validated by the "
                 "correspondence run, not proved; checked-memory abstraction (one block per argv word / option name, the option table holds "
                 "null or NUL-free terminated names); Map iteration = ascending key order (C01).  'getopt rules' means the "
@@ -45,11 +51,13 @@ MANIFEST = {
                 "openfailpipe).  Wait model: one owner thread, interrupt() atomic (it holds the mutex), its vfork assumed to succeed (when "
                 "it fails the code drops the interrupt), waitid reports the oldest terminated child (Linux; only the correspondence run uses "
                 "this); a terminated child outside the list makes wait return null every time until it is joined (observation).  Not "
-                "covered: daemonize, the Windows branch, EINTR/time-out of select in read.  env_*/proc_* theorems are auxiliary (hand abstractions).  The '0 = closed' bookkeeping assumes pipe() never "
+                "covered: the Windows branch.  Outside C20 (documented, not patched): interrupt() drops the interrupt when its vfork fails; "
+                "daemonize leaves stdin as it is.  env_*/proc_* theorems are auxiliary (hand abstractions).  The '0 = closed' bookkeeping assumes pipe() never "
                 "returns descriptor 0.  Observations (not defects): with single blanks only between the words a trailing empty word "
                 "cannot be written (a blank behind it can); a fully quoted word ending in a backslash swallows its closing quote "
                 "(write the backslash outside the quotes); join reports 0 for a child terminated by a signal.  The model mirrors the "
-                "code repaired by fixes/args/0001-0009 (0009: Process::exit passed 0 to _exit whatever the argument).",
+                "code repaired by fixes/args/0001-0010 (0009: Process::exit passed 0 to _exit whatever the argument; 0010: read(buf, len, "
+                "streams) reused the cleared fd_set and the consumed time-out after a select time-out and never returned).",
         "design_ref": "DESIGN.md 3/C20",
     }
 }
@@ -894,6 +902,16 @@ def nontrivial(h, out):
             _hit("late:" + l.split()[1])
         elif o.startswith("p "):
             _hit("proc:call-refused" if o.startswith("p ok=0") else "proc:call-ok")
+        elif o.startswith("sel "):
+            for tok in l.split()[5:]:
+                sc = tok.split(".")[2]
+                _hit("read3:select-timeout-then-delivery" if "T" in sc else "read3:select-eintr-then-delivery" if "I" in sc else "read3:plain")
+            _hit("read3:eof-reported", o.count("/-"))
+            _hit("read3:einval", o.count("r=einval"))
+            _hit("read3:stderr-served", o.count("/2/e"))
+            keys.add(o)
+        elif o.startswith(("jf ", "dmn ", "sf ")):
+            keys.add(o)
         elif o.startswith("w wait"):
             if "ret=null" in o:
                 w = l.split()
@@ -966,6 +984,7 @@ f"Added in the extension round: wait/interrupt: {len(wh)} histories over 4 Proce
         f"a table holding duplicate letters and names, the letters '-' and ':' and empty long names ({len(ea2)}); argc = 0; Process::exit x "
         f"codes, getCurrentProcessId, getExecutablePath, 2-argument read + write + close(streams) x sizes; join(), start(argv), "
         f"open(command) on a busy object, open() with the 1st/2nd/3rd pipe() failing; environ entries without '='. "
+f"Round 2: sel: {len(sl)} runs of read(buf, len, streams) under a scripted select; joinfail/startfail/dmn: {len(fl)} lines. "
         "distinct_nontrivial = distinct observation lines with >= 2 results / >= 2 words / a child run")
     ctx.cov["open_statements"] = [
         "run-time delivery (the child observes argv/environ as given, join returns its exit code, redirected bytes arrive intact up to "
@@ -987,6 +1006,8 @@ ASSUMPTIONS = [
     "wait/interrupt model (Wait.lean): process table with arbitrary pid allocation incl. reuse of reaped pids, child-exit oracle, waitpid reaps, "
     "waitid(P_ALL, WEXITED|WNOWAIT) reports some terminated child without reaping / ECHILD without children, vfork returns in the parent after the "
     "child's _exit; one owner thread; interrupt() atomic and its vfork succeeds; correspondence run only: waitid reports the oldest terminated child",
+    "read model (ReadSel.lean): select examines only descriptors below nfds and leaves the other bits, reports readable = data queued or no writer "
+    "left, a time-out clears the examined bits and zeroes tv (Linux), EINTR leaves the set; a blocking ::read on a pipe returns min(length, queued)",
     "pipe model for arbitrary programs (Pipes.lean): one holder per pipe end, EPIPE for the parent (SIGPIPE ignored), SIGPIPE kills the child",
     "abstract kernel model (Kernel.lean): a pipe is a bounded FIFO with partial reads/writes and end-of-file when no write end is left; "
     "pipe() returns unused descriptors > 2; vfork copies the descriptor table; its adequacy for Linux is assumed and cross-checked by the io/fdtable streams",
